@@ -1,5 +1,6 @@
 import St4sd.Model.Repl
 import St4sd.Model.ReplConf
+import St4sd.Model.ReplOver
 /-!
 Witnesses for C03: the textual rewriting of the **unrepaired** `compile_component_replica`
 (`replicaTextOld`: `str.replace` of the long and the short spelling of every replicated reference over
@@ -82,5 +83,48 @@ theorem own_replica_over_injected_breaks_index :
       String.ofList) = [some "0", some "0", some "0"] ∧
     (List.range 3).map (fun i => (lookup (copyVars [(replicaKey, "0".toList)] i) replicaKey).map String.ofList) =
       [some "0", some "1", some "2"] := by decide
+
+/-! ## the `override.<platform>` block of a replicated component (`Model/ReplOver.lean`)
+
+`FlowIRConcrete.instance(platform)` keeps the block `override.<platform>` inside the component and a reader
+of the replicated FlowIR (`get_component_configuration`, `get_component_variables`) layers it over the
+component again.  The unrepaired code (`pieceOverOld`) rewrites the strings of the block but neither
+re-splits the `references` of an aggregator's block nor touches a `replica` the block defines; the repaired
+code (`pieceOver`, `fixes/C03-override-block-replication.diff`) does, `C03.override_block_consistent`.  The
+harness replays the same workflows on the real code (`corpus:override-*`). -/
+
+/-- the aggregator `D` of `A` (2 replicas): `references: [A:ref]`, restated by its override block -/
+def cAgg : Comp := { comp 0 "D" [ref 0 false "A"] with agg := true }
+def blkRefs : TBlock := ⟨some ["A:ref".toList], some "A:ref".toList, []⟩
+
+/-- unrepaired: the block's reference list holds ONE string naming both copies (the loader rejects it as an
+invalid reference: a valid workflow is refused on that platform only); repaired: the two references -/
+theorem old_override_aggregate_references_not_split :
+    ((pieceBase d1 cAgg (layerT blkRefs blkRefs) (some 2)).zip (pieceOverOld d1 cAgg blkRefs (some 2))).map
+        (fun x => (readBack x).refs.map (·.map String.ofList)) = [some ["stage0.A0:ref stage0.A1:ref"]] ∧
+    ((pieceBase d1 cAgg (layerT blkRefs blkRefs) (some 2)).zip (pieceOver d1 cAgg blkRefs (some 2))).map
+        (fun x => (readBack x).refs.map (·.map String.ofList)) = [some ["stage0.A0:ref", "stage0.A1:ref"]] := by
+  decide
+
+/-- a consumer of `A` whose override block defines `replica: 7` -/
+def cCons : Comp := comp 0 "C" [ref 0 false "A"]
+def blkReplica : TBlock := ⟨none, none, [(replicaKey, "7".toList)]⟩
+
+/-- unrepaired: every copy reads `replica = 7` through the platform layer; repaired: copy `i` reads `i` -/
+theorem old_override_replica_hides_index :
+    ((pieceBase d1 cCons (layerT blkRefs blkReplica) (some 2)).zip (pieceOverOld d1 cCons blkReplica (some 2))).map
+        (fun x => (lookup (readBack x).vars replicaKey).map String.ofList) = [some "7", some "7"] ∧
+    ((pieceBase d1 cCons (layerT blkRefs blkReplica) (some 2)).zip (pieceOver d1 cCons blkReplica (some 2))).map
+        (fun x => (lookup (readBack x).vars replicaKey).map String.ofList) = [some "0", some "1"] := by
+  decide
+
+/-- NOT the code: were the kept block left out of the rewriting (only the component's own fields rewritten),
+every copy would read back the un-replicated reference `A:ref` — a component that no longer exists -/
+theorem unrewritten_override_block_breaks_wiring :
+    ((pieceBase d1 cCons (layerT blkRefs blkRefs) (some 2)).map fun b =>
+        (readBack (b, blkRefs)).refs.map (·.map String.ofList)) = [some ["A:ref"], some ["A:ref"]] ∧
+    ((pieceBase d1 cCons (layerT blkRefs blkRefs) (some 2)).zip (pieceOver d1 cCons blkRefs (some 2))).map
+        (fun x => (readBack x).refs.map (·.map String.ofList)) = [some ["stage0.A0:ref"], some ["stage0.A1:ref"]] := by
+  decide
 
 end St4sd.C03.Witness
